@@ -17,6 +17,45 @@ check("C09", "Lean 4 kernel decision (decide +kernel) over all 680 triples + exh
       "outcome classes recognised by message text; generic values only.",
       "DESIGN.md §6 C09")
 
+check("C10", "Lean 4 invariant by induction over operation histories + correspondence on random histories",
+      "Theorems (lean/DiffcalcProofs/Props/C10.lean) over the hand model of Constraints: capacity invariant for every finite history of "
+      "set/del/clear/bulk operations (inv_history, c10_capacity), exact deactivation, replacement policy (replace_policy, accept_free), "
+      "read-back at the real-number reading (readback_num/true). Model and class are stepped on the same random histories (all 17 names x 9 "
+      "value kinds, bulk setters with unknown names) and outcome + full state compared after every operation; a rule oracle runs on the class directly.",
+      "Lean kernel; standard axioms; hand model Cons.lean tied by sampled correspondence (not exhaustive); degrees(radians(x)) rounding within 1e-9; "
+      "rebuild-from-read-out clause checked by correspondence/oracle only (no theorem yet).",
+      "DESIGN.md §6 C10")
+
+check("C18", "Lean 4 refinement of the list operations to plain-sequence laws + correspondence on random histories",
+      "Theorems (Props/C18.lean) for every list and record type: 1-based index and first-matching tag address the same record (locate_num, locate_tag), "
+      "add appends, edit replaces in place, delete closes the gap, swap exchanges, index above n -> IndexError, unknown tag -> ValueError, errors leave the "
+      "list unchanged, records are never fabricated over any history (history_records). Model and UBCalculation wrappers are stepped on the same histories for both lists.",
+      "Lean kernel; standard axioms; hand model RefList.lean (Python negative-index wrap modelled) tied by sampled correspondence; payload fields compared by the oracle.",
+      "DESIGN.md §6 C18")
+
+check("C16", "Lean 4 theorems over the frame-conversion model (real-number reading) + correspondence",
+      "Theorems (Props/C16.lean): same-frame read-back, other frame = unit vector along UB^{+-1} v, None exactly when a UB is needed and missing — separately "
+      "for reference and surface vector, independence of the two vectors, consistency of the two frames, read-back/set-back keeps the direction (setback_hkl/phi). "
+      "Model and UBCalculation properties compared on random setter/UB sequences; the oracle also checks pseudo-angle invariance under read-back/set-back.",
+      "Lean kernel; standard axioms; hand model Frames.lean; numpy inv modelled as adjugate/det; floating point within 1e-9.",
+      "DESIGN.md §6 C16")
+
+check("C08", "Lean 4 invariant by induction over UB-operation histories + Rodrigues/quaternion identities + correspondence",
+      "Theorems (Props/C08.lean, C08Miscut.lean): for every finite history of set_lattice/set_u/set_ub/set_miscut/calc_ub/refine_ub/fit_ub on rotation-valued "
+      "inputs, U is a proper rotation and UB = U.B(current lattice) (inv_history); set_miscut composes on the left; Rodrigues matrix is a proper rotation fixing its axis; "
+      "get_miscut returns angle and axis for axis perpendicular to the unit surface normal; the matrix built from ANY optimiser output in the box is a proper rotation "
+      "(quatRot_isRot, on definitions GENERATED from ub/fitting.py). Model vs UBCalculation on random histories incl. rejected arguments.",
+      "Lean kernel; standard axioms; hand model UBState.lean with B(new lattice), calc_ub's U and the optimiser output as parameters; scipy from_rotvec modelled as Rodrigues "
+      "(validated numerically each run); cbrt(det) = 1 for rotation inputs.",
+      "DESIGN.md §6 C08")
+
+check("C17", "Lean 4 theorems 'error => state unchanged' for three state machines + fault enumeration of rejected updates",
+      "Theorems: every raising operation of the constraint manager (C10.step_error_unchanged), of both lists (C18.step_error_unchanged) and of the UB state machine "
+      "(C08.step_error_unchanged) leaves the model state unchanged, for every state. The models are tied by the C10/C18/C08 correspondences; the oracle attempts ~45 kinds "
+      "of rejected update on random reachable calculators and compares a deep snapshot before/after.",
+      "Lean kernel; standard axioms; statement order inside mutators is modelled by hand (tied by correspondence on malformed histories); Crystal's constructor only by the oracle.",
+      "DESIGN.md §6 C17")
+
 NOT_APPLICABLE = []   # filled below for properties without a registered check
 
 ALL = ["C%02d" % i for i in range(1, 21)]
